@@ -52,8 +52,13 @@ def control_text(rng, pkg=None):
         fields.append((b"Depends", rng.choice([b"libc6 (>= 2.17), foo | bar", b"a, b (<< 2) [amd64]", b"x"])))
     if rng.random() < 0.5:
         fields.append((b"Section", b"utils"))
-    if rng.random() < 0.5:
-        fields.append((b"Description", b"short\n long line\n .\n more"))
+    if rng.random() < 0.7:
+        # text whose lines end in letters with a last UTF-8 byte 0x85 / 0xA0 (the code points U+0085 and U+00A0 are white
+        # space for Go, those BYTES inside a letter are not), on the first and on continuation lines
+        first = rng.choice([b"short", b"short", b"Universit\xc3\xa0", b"d\xc3\xa9j\xc3\xa0", b"\xe4\xb8\xa0"])
+        conts = [rng.choice([b"long line", b"caf\xc3\xa9 \xc3\x85", b"\xd0\xa0\xd1\x83\xd1\x81\xd1\x81\xd0\xba\xd0\xb8\xd0\xb9 \xd1\x82\xd0\xb5\xd0\xba\xd1\x81\xd1\x85", b"\xc4\x85", b"  indented \xc5\xa0", b".", b"more", b"\xce\xa0"])
+                 for _ in range(rng.randrange(0, 4))]
+        fields.append((b"Description", b"\n ".join([first] + conts)))
     if rng.random() < 0.3:
         fields.append((b"X-Custom", b"whatever"))
     rng.shuffle(fields)
